@@ -34,7 +34,7 @@ theorem once_boot (hi : InfoNew info) : OnceInv (boot n info names wr ewr) := by
   · trivial
   · intro e _; exact (hi e).2.2
 
-theorem flag_boot : FlagInv (boot n info names wr ewr) := ⟨⟨rfl, rfl⟩, by intro g hg; cases hg⟩
+theorem flag_boot : FlagInv (boot n info names wr ewr) := ⟨⟨rfl, rfl⟩, (by intro g hg; cases hg), trivial⟩
 
 theorem pendD_boot : PendD (boot n info names wr ewr) := by intro T; cases T <;> exact List.Perm.refl _
 
